@@ -209,3 +209,40 @@ pub fn short(i: &Integer) -> String {
         format!("0x{}", s)
     }
 }
+
+/// Selection of leaf perturbations under a budget, balancing over (generic path, edit kind) across
+/// the whole run, so that every kind of field is perturbed even when each proof gets only a sample.
+pub fn pick_edits(leaves: &[(String, Integer)], budget: usize, st: &mut u64) -> Vec<(usize, u8)> {
+    use std::collections::HashMap;
+    use std::sync::Mutex;
+    static COVER: Mutex<Option<HashMap<(String, u8), u32>>> = Mutex::new(None);
+    let mut all: Vec<(usize, u8)> = (0..leaves.len()).flat_map(|li| (0..4u8).map(move |e| (li, e))).collect();
+    if budget == 0 || budget >= all.len() {
+        return all;
+    }
+    // shuffle, then stable-sort by how often the kind was exercised so far
+    for i in (1..all.len()).rev() {
+        let j = (splitmix(st) as usize) % (i + 1);
+        all.swap(i, j);
+    }
+    let mut g = COVER.lock().unwrap();
+    let cover = g.get_or_insert_with(HashMap::new);
+    let mut chosen: Vec<(usize, u8)> = vec![];
+    let mut local: HashMap<(String, u8), u32> = HashMap::new();
+    let mut keyed: Vec<(u32, usize, u8)> = all.iter().map(|&(li, e)| (*cover.get(&(generic_path(&leaves[li].0), e)).unwrap_or(&0), li, e)).collect();
+    keyed.sort_by_key(|k| k.0);
+    for (_, li, e) in keyed {
+        let k = (generic_path(&leaves[li].0), e);
+        // at most one instance of a kind per proof until the budget is spent on distinct kinds
+        if local.contains_key(&k) {
+            continue;
+        }
+        local.insert(k.clone(), 1);
+        *cover.entry(k).or_insert(0) += 1;
+        chosen.push((li, e));
+        if chosen.len() >= budget {
+            break;
+        }
+    }
+    chosen
+}
